@@ -20,7 +20,7 @@ CHECKS = {
     'C16': ('B', 'model_checking', 'PARTIAL (async_fifo_stream and AsyncParmapperAsync; AsyncServer outside): the same sequential-meaning oracle as C01 is checked on a model of the asyncio loop (tasks = threads, loop = one mutex given up only at suspension points), so every completion order of the worker tasks and every preprocessor-failure position is covered; counterexamples are confirmed on the real event loop.', '3 C16'),
     'C04': ('B', 'model_checking', 'PARTIAL (plain and sequential thread servlets, no batching/ensemble): which request fails at which site is a symbolic input per request and the callers run concurrently, so the solver covers every failing subset and every interleaving of the short-circuited errors with regular results.', '3 C04'),
     'C11': ('B', 'model_checking', 'Which worker (stage, index) fails to initialise is symbolic; a thread left behind by a failed start or by exit is a deadlock/trap state of the product, so all-or-nothing start and complete stop are the safety and progress queries over the real start/stop protocol (thread servlets; processes and pipes outside).', '3 C11'),
-    'C18': ('A', 'other', 'PARTIAL: record framing (payload bytes symbolic, so newlines, spaces and header look-alikes are all in range) and the named-pipe path wiring. Matching of responses to requests under reordering and the OS FIFOs themselves are outside this check (see DESIGN.md section 4).', '3 C18'),
+    'C18': ('B', 'model_checking', 'PARTIAL: (a) record framing with symbolic payload bytes (newlines, spaces, header look-alikes) and the named-pipe path wiring by CrossHair; (b) the server\'s connection handler (receiving task, responding task, handler tasks) on a model of the asyncio loop with symbolic handler behaviour: one response per request, in order, with the request\'s id and the handler\'s own value or exception, for every interleaving of the tasks; counterexamples confirmed on the real event loop over a unix socket. The client\'s matching of responses to requests over several connections and the OS transports themselves are outside (DESIGN.md section 4).', '3 C18'),
     'C12': ('A', 'other', 'The ways a target can end times the kill phase times the signal times the first accessor form a table no test walks; the solver walks all of it on the real reporting code with the OS facts stubbed, and the future-resolved condition is what makes wait/as_completed terminate.', '3 C12'),
     'C15': ('A', 'other', 'Loss of the traceback on a later hop or of args for exceptions with non-trivial constructors shows only for particular class/hop/re-raise combinations; all combinations of the catalogue are exhausted by the solver over real pickle round trips.', '3 C15'),
     'C03': ('A', 'other', 'Operator interactions form a program space; the check enumerates the operator skeletons and leaves elements and parameters symbolic, so boundary sizes (1, len, len+1), empty batches and parameter combinations are covered by the solver rather than by examples.', '3 C03'),
